@@ -3,6 +3,8 @@ CONSTANTS
   MinV = 1
   MaxV = 7
   NLabels = 3
+  EditOps = {}
+  MaxRemove = 1
   Deviations = {}
 INVARIANT JoinConsecutiveSamePartOnly
 INVARIANT JoinAllConsecutive
